@@ -240,6 +240,7 @@ func t01Presentations(own, v int) []t01Pres {
 		{"chain-genuine+bare", []t01Cert{cert(g), {key: 3, signer: 3, intact: 1, timeok: 1}}, 1},
 		{"chain-bare+genuine", []t01Cert{{key: 3, signer: 3, intact: 1, timeok: 1}, cert(g)}, 1},
 		{"chain-victims+own", []t01Cert{victims, cert(g)}, 0},
+		// corpus of the repaired defect (8beaf91): the certificate's self-signature was never verified
 		{"signed-by-other-cert-key", []t01Cert{{key: 1, signer: 3, intact: 1, timeok: 1, exts: []t01Ext{g}}}, 1},
 		{"altered-after-signing", []t01Cert{{key: 1, signer: 1, intact: 0, timeok: 1, exts: []t01Ext{g}}}, 1},
 		{"expired", []t01Cert{{key: 1, signer: 1, intact: 1, timeok: 0, exts: []t01Ext{g}}}, 1},
